@@ -5,7 +5,7 @@ YAML Path processor based on ruamel.yaml.
 Copyright 2018, 2019, 2020, 2021, 2022 William W. Kimball, Jr. MBA MSIS
 """
 from collections import OrderedDict
-from typing import Any, Dict, Generator, List, Union
+from typing import Any, Dict, Generator, List, Set, Tuple, Union
 
 from ruamel.yaml.compat import ordereddict as ryod
 from ruamel.yaml.comments import (
@@ -769,6 +769,30 @@ class Processor:
                     str(delete_nc.path)
                 )
 
+    @staticmethod
+    def _unwrap_node_coords(
+        node_coords: List[NodeCoords]
+    ) -> Generator[NodeCoords, None, None]:
+        """
+        Yield the document nodes within possibly wrapped (collector) results.
+
+        Parameters:
+        1. node_coords (List[NodeCoords]) The results to unwrap.
+
+        Returns:  (Generator) One NodeCoords per designated document node
+        """
+        for node_coord in node_coords:
+            node = node_coord.node
+            if (isinstance(node, list) and len(node) > 0
+                    and isinstance(node[0], NodeCoords)):
+                for inner_coord in Processor._unwrap_node_coords(node):
+                    yield inner_coord
+            elif isinstance(node, NodeCoords):
+                for inner_coord in Processor._unwrap_node_coords([node]):
+                    yield inner_coord
+            else:
+                yield node_coord
+
     def _delete_nodes(self, delete_nodes: List[NodeCoords]) -> None:
         """
         Recursively delete specified nodes.
@@ -785,11 +809,33 @@ class Processor:
         # by the time the root is reached and refused.
         self._refuse_root_deletion(delete_nodes)
 
-        # pylint: disable=locally-disabled,too-many-nested-blocks
-        for delete_nc in reversed(delete_nodes):
-            node = delete_nc.node
+        # Collector results wrap the nodes to delete and yield them in any
+        # order, possibly more than once.  Unwrap them; delete every place once
+        # and the elements of a list from the highest index down so that no
+        # deletion moves another one's target.
+        places: List[Tuple[NodeCoords, Any]] = []
+        seen_places: Set[Tuple[int, type, Any]] = set()
+        for delete_nc in self._unwrap_node_coords(delete_nodes):
             parent = delete_nc.parent
             parentref = delete_nc.parentref
+            if (isinstance(parent, (CommentedSeq, list))
+                    and isinstance(parentref, int) and parentref < 0):
+                parentref += len(parent)
+            place = (id(parent), type(parentref), parentref)
+            if place in seen_places:
+                continue
+            seen_places.add(place)
+            places.append((delete_nc, parentref))
+        places.reverse()
+        places.sort(
+            key=lambda place: place[1]
+            if isinstance(place[0].parent, (CommentedSeq, list))
+            and isinstance(place[1], int) else -1,
+            reverse=True)
+
+        # pylint: disable=locally-disabled,too-many-nested-blocks
+        for (delete_nc, parentref) in places:
+            parent = delete_nc.parent
             ancestry = delete_nc.ancestry
             self.logger.debug(
                 "Deleting node:",
@@ -799,12 +845,7 @@ class Processor:
                 data=delete_nc)
 
             # Ensure the reference exists before attempting to delete it
-            if (isinstance(node, list) and len(node) > 0
-                    and isinstance(node[0], NodeCoords)):
-                self._delete_nodes(node)
-            elif isinstance(node, NodeCoords):
-                self._delete_nodes([node])
-            elif isinstance(parent, (CommentedMap, dict)):
+            if isinstance(parent, (CommentedMap, dict)):
                 all_data = ancestry[0][0] if len(ancestry) > 0 else parent
                 all_anchors: Dict[str, Any] = {}
                 Anchors.scan_for_anchors(all_data, all_anchors)
@@ -833,7 +874,8 @@ class Processor:
                 if len(parent) > parentref:
                     del parent[parentref]
             elif isinstance(parent, (CommentedSet, set)):
-                parent.discard(parentref)
+                if parentref in parent:
+                    parent.discard(parentref)
             else:
                 # Edge-case:  Attempt to delete from a document which is
                 # entirely one Scalar value OR user is deleting the entire
